@@ -13,7 +13,8 @@ pub(crate) fn remove_insignificant_whitespace(xot: &mut Xot, node: Node) {
 }
 
 fn is_whitespace(text: &str) -> bool {
-    text.chars().all(|c| c.is_whitespace())
+    // XML whitespace only; other Unicode spaces (such as U+00A0) are content
+    text.chars().all(|c| c == ' ' || c == '\t' || c == '\r' || c == '\n')
 }
 
 fn is_significant_text_node(xot: &Xot, node: Node) -> bool {
